@@ -27,6 +27,7 @@ import (
 	"sync"
 	"testing"
 
+	"github.com/mattn/anko/core"
 	"github.com/mattn/anko/env"
 	"github.com/mattn/anko/vm"
 
@@ -44,7 +45,7 @@ type Work struct {
 	CtxMode int    `json:"ctx_mode,omitempty"` // 0 simulated cancellable context, 1 context.Background(), 2 vm.Execute (no context argument)
 }
 
-const nSites = 97
+const nSites = 104
 const nWraps = 7
 
 func siteSrc(k int, id string) string {
@@ -243,8 +244,23 @@ func siteSrc(k int, id string) string {
 		return "p" + id + " = new(struct { A int64 })\np" + id + ".A = h(" + id + ")\nx" + id + " = p" + id + ".A\nl" + id + " = make([]*struct { A int64 }, 1)\ny" + id + " = l" + id + "[0].A"
 	case 95:
 		return "make(type S" + id + ", make(struct { A int64 }))\np" + id + " = new(S" + id + ")\nx" + id + " = p" + id + ".A + h(" + id + ")\ns" + id + " = make(struct { Q *S" + id + " })\ny" + id + " = s" + id + ".Q.A"
-	default:
+	case 96:
 		return "p" + id + " = new(struct { A int64 })\nx" + id + " = p" + id + ".A\nl" + id + " = make([]*struct { A int64 }, 1)\nl" + id + "[0].A = h(" + id + ")"
+	// the bundled builtins are Go functions that panic on misuse: every such panic must become an error
+	case 97:
+		return "keys(h(" + id + "))"
+	case 98:
+		return "go keys(1)\ndefer keys(nil)\nx" + id + " = range()"
+	case 99:
+		return "x" + id + " = range(1, 2, 0)\ny" + id + " = range(1, 2, 3, h(" + id + "))"
+	case 100:
+		return "go range()\ngo toIntSlice([1, \"a\"])\ngo load(\"/nonexistent" + id + "\")"
+	case 101:
+		return "x" + id + " = toIntSlice([1, \"a\", h(" + id + ")])\ny" + id + " = toStringSlice([1])"
+	case 102:
+		return "load(\"/nonexistent" + id + "\")"
+	default:
+		return "func d" + id + "() { defer range(); defer keys([1]); h(" + id + ") }\nd" + id + "()"
 	}
 }
 
@@ -394,6 +410,7 @@ func (Prop) Run(t *testing.T, c *harness.Case, verbose bool) *harness.Result {
 			return k
 		}
 		e := env.NewEnv()
+		core.Import(e)
 		e.Define("h", func(id int64) int64 { fault("h"); return id })
 		e.Define("hid", func(x interface{}) interface{} { fault("hid"); return x })
 		e.Define("hv", func(xs ...int64) int64 { fault("hv"); return int64(len(xs)) })
